@@ -108,6 +108,11 @@ func PatchesFromDocument(doc string) ([]Patch, error) {
 	var jsonPatches []string
 
 	for _, key := range sortedKeys(parsed) {
+		if (key == document.PublicKeyProperty || key == document.ServiceProperty) && isEmptyList(parsed[key]) {
+			// nothing to add (an add patch without entries is not a valid patch)
+			continue
+		}
+
 		jsonBytes, err := json.Marshal(parsed[key])
 		if err != nil {
 			return nil, err
@@ -150,6 +155,12 @@ func PatchesFromDocument(doc string) ([]Patch, error) {
 	}
 
 	return docPatches, nil
+}
+
+func isEmptyList(value interface{}) bool {
+	list, ok := value.([]interface{})
+
+	return ok && len(list) == 0
 }
 
 // NewReplacePatch creates new replace patch.
